@@ -156,6 +156,31 @@ def outcome_of(it):
     return ("ok", tuple(sorted((t, tuple(sorted(v))) for t, v in per.items())))
 
 
+def run_sc(programs, max_states=200000, timeout=600):
+    """reference outcomes (Spec/SC.lean) of every program: {prog: (set of outcome strings, capped)}"""
+    recs = run_many([DRIVER_BIN, "sc", str(max_states)], programs, timeout)
+    out = {}
+    for p, lines in recs.items():
+        outs = set(l[4:] for l in lines if l.startswith("OUT "))
+        done = [l for l in lines if l.startswith("DONE ")]
+        capped = not done or not done[-1].endswith(" ok")
+        states = int(done[-1].split()[1]) if done and done[-1].split()[1].isdigit() else 0
+        out[p] = (outs, capped, states)
+    return out
+
+
+def verdict_class(term):
+    if term.startswith("leak"):
+        return "leak"
+    return term
+
+
+def outcome_str(it):
+    """an implementation iteration in the outcome format of the reference oracle"""
+    rets = sorted((int(t), int(pc), r) for t, pc, r, _c in it["ev"])
+    return " ".join([verdict_class(it["term"])] + [f"{t}:{pc}={r}" for t, pc, r in rets])
+
+
 def first_diff(a, b):
     """index and the two lines at the first difference of two record lists"""
     for i, (x, y) in enumerate(zip(a, b)):
